@@ -80,3 +80,36 @@ theorem runHistory_state {v w : Vals} (h : invert v = .ok w) :
       · simp [hf]
 
 end CBV.C03
+
+namespace CBV.C03
+
+/-! ### histories with preserving copies -/
+
+theorem runObj_append (ob : Obj) (a b : List OStep) :
+    runObj ob (a ++ b) = ((runObj (runObj ob a).1 b).1, (runObj ob a).2 ++ (runObj (runObj ob a).1 b).2) := by
+  induction a generalizing ob with
+  | nil => simp [runObj]
+  | cons st rest ih =>
+    cases st with
+    | plain s => simp only [List.cons_append, runObj, ih]
+    | copy inv t L o => simp only [List.cons_append, runObj, ih]
+
+theorem Obj.step_params (ob : Obj) (s : Step) : (ob.step s).1.params = (runHistory ob.params [s]).1 := by
+  cases s <;> rfl
+
+/-- the parameter record of the object only follows the calls made on the object itself -/
+theorem runObj_params (ob : Obj) (steps : List OStep) :
+    (runObj ob steps).1.params = (runHistory ob.params (plainSteps steps)).1 := by
+  induction steps generalizing ob with
+  | nil => rfl
+  | cons st rest ih =>
+    cases st with
+    | copy inv t L o => simp only [runObj, plainSteps, ih]
+    | plain s =>
+      simp only [runObj, plainSteps]
+      rw [ih, Obj.step_params]
+      have := runHistory_append ob.params [s] (plainSteps rest)
+      simp only [List.singleton_append] at this
+      rw [this]
+
+end CBV.C03
